@@ -699,7 +699,7 @@ def run(ctx):
             ctx.count("corpus_inputs")
 
     # ------------------------------------------------------------------ class bodies and histories (T2 + API oracle)
-    nrandom = 160 if not ctx.thorough else 8000
+    nrandom = 160 if not ctx.thorough else 4000
     bodies = [(b, False) for b in systematic_bodies()] + [(b, True) for b in systematic_bodies() if all(not n.startswith("__") for n, _ in b)]
     for _ in range(nrandom):
         b = random_body(rng)
@@ -743,7 +743,7 @@ def run(ctx):
 
     # ------------------------------------------------------------------ scalar path of both codecs (T2)
     bnums = boundary_numbers()
-    nscalar = 12 if not ctx.thorough else 250
+    nscalar = 12 if not ctx.thorough else 90
     chosen = classes[:len(systematic_bodies())] + [classes[rng.randrange(len(classes))] for _ in range(nscalar)] if classes else []
     msgs = {}
     for body, cname, E in chosen:
